@@ -632,7 +632,9 @@ func evalExcuse(ex *Exec, ob *Obligation, node *Node) (t string, extra []string,
 		}
 	}
 	for k, v := range ob.extraVars {
-		env.vars[k] = v
+		if _, isInput := env.vars[k]; !isInput {
+			env.vars[k] = v
+		}
 	}
 	t = env.evalBool(node)
 	return t, st.lines, nil
